@@ -43,6 +43,37 @@ pub fn skip_text_stub(
     Ok(((&input.0[pos / 8..], pos % 8), AsciiString::new()))
 }
 
+/// Like `skip_text_stub`, but the returned string has one (non-padding) character per character of the
+/// requested range: the harnesses c13w_* read the *range* handed to the text decoder off the result's length
+/// (the decoder itself is the subject of the c13_* harnesses).  Natively the real decoder runs on a payload
+/// whose every 6-bit group is non-padding, so the same length is expected there.
+pub fn len_text_stub(
+    input: (&[u8], usize),
+    size: usize,
+) -> IResult<(&[u8], usize), AsciiString> {
+    let k = size / 6;
+    let nbits = 6 * k;
+    let rem = input.0.len() * 8 - input.1;
+    if rem < nbits {
+        return Err(nom::Err::Error(nom::error::Error::new(input, ErrorKind::Eof)));
+    }
+    #[cfg(all(not(feature = "std"), not(feature = "alloc")))]
+    if k > 20 {
+        return Err(nom::Err::Failure(nom::error::Error::new(input, ErrorKind::TooLarge)));
+    }
+    let mut s = AsciiString::new();
+    let mut i = 0;
+    while i < k {
+        #[cfg(any(feature = "std", feature = "alloc"))]
+        s.push('?');
+        #[cfg(all(not(feature = "std"), not(feature = "alloc")))]
+        let _ = s.push('?');
+        i += 1;
+    }
+    let pos = input.1 + nbits;
+    Ok(((&input.0[pos / 8..], pos % 8), s))
+}
+
 // ---- identity-encoding stubs of the pub scaling leaves (C10 wiring harnesses).  Each returns the raw
 // argument bit-cast into the f32, tagged so that the four leaves are distinguishable; the wiring harness
 // then proves with integer reasoning only that exactly sign_extend(bits(..)) reaches the right leaf and
